@@ -8,6 +8,7 @@ placements); coordinates are produced with an independent atan2 based routine.
 from __future__ import annotations
 
 import math
+import zlib
 from dataclasses import dataclass, field
 
 import numpy as np
@@ -236,6 +237,17 @@ def _realise(sc, exp, workdir, emb, extra, order, wscale, perm, want, W):
     cunk = yaw.Catalog.from_dataframe(workdir / "unk", dunk, **kw)
     crnd = yaw.Catalog.from_dataframe(workdir / "rnd", dunk, **kw)
     cfg = sc.yaw_config()
+    # pre-history of the tree caches: the binned catalog has served the same edges with the OTHER closed side and edges
+    # that differ by a relative 2e-6 before; the measurements below must not be influenced by what is cached
+    edges0 = np.asarray(cfg.binning.edges, dtype=float)
+    other = "left" if str(cfg.binning.closed) == "right" else "right"
+    nudged = edges0.copy()
+    nudged[1:-1] *= 1.0 - 2e-6
+    history = [(edges0, other), (nudged, str(cfg.binning.closed))]
+    if zlib.crc32(repr(exp["ref"]).encode()) % 2:          # which of the two is the most recent state of the cache varies with the scenario
+        history.reverse()
+    for e_, c_ in history:
+        cref.build_trees(e_, closed=c_, max_workers=1)
     out = {}
     if "meta" in want:
         out["meta1"] = dict(keys=list(cref.keys()), num=list(cref.get_num_records()), sw=list(cref.get_sum_weights()),
